@@ -61,9 +61,11 @@ func (x *c08World) Enabled() []bfs.Op {
 		{Name: "Add", Arg: "K2"}, {Name: "Add", Arg: "c.cur"}, {Name: "Remove", Arg: "K1"}, {Name: "Remove", Arg: "h1"}, {Name: "RemoveAll"},
 		{Name: "Lock!refused", Arg: "p"}, {Name: "Unlock!refused", Arg: "p"}, {Name: "Close"},
 		// the request FOLLOWING the lock/unlock request inside the same operation fails (there is none on the current tree)
-		{Name: "Lock!refused+1", Arg: "p"}, {Name: "Unlock!refused+1", Arg: "p"}}
-	if x.thorough {
-		ops = append(ops, bfs.Op{Name: "Lock!closed", Arg: "p"}, bfs.Op{Name: "Unlock!closed", Arg: "p"}, bfs.Op{Name: "Lock!closed+1", Arg: "p"}, bfs.Op{Name: "Unlock!closed+1", Arg: "p"}, bfs.Op{Name: "Unlock!refused+2", Arg: "p"}, bfs.Op{Name: "Sign", Arg: "c.cur"}, bfs.Op{Name: "Remove", Arg: "c.cur"},
+		{Name: "Lock!refused+1", Arg: "p"}, {Name: "Unlock!refused+1", Arg: "p"},
+		// the underlying agent drops the connection instead of answering the unlock request (a transport failure, not a refusal)
+		{Name: "Unlock!closed", Arg: "p"}}
+	{ // (these were thorough-only until round 20; the whole alphabet costs a few seconds at the quick depth)
+		ops = append(ops, bfs.Op{Name: "Lock!closed", Arg: "p"}, bfs.Op{Name: "Lock!closed+1", Arg: "p"}, bfs.Op{Name: "Unlock!closed+1", Arg: "p"}, bfs.Op{Name: "Unlock!refused+2", Arg: "p"}, bfs.Op{Name: "Sign", Arg: "c.cur"}, bfs.Op{Name: "Remove", Arg: "c.cur"},
 			bfs.Op{Name: "Lock", Arg: ""}, bfs.Op{Name: "Forward", Arg: "\x0b"})
 	}
 	return ops
@@ -264,7 +266,7 @@ func checkC08(c *ev.Ctx) {
 	setupFixtures()
 	c.Rule("E1 BFS over histories of the real shimagent.Server: alphabet Lock/Unlock with passphrases {p,q,''}, lock/unlock refused by the underlying agent (failure reply; thorough: connection drop), a failure of the request that FOLLOWS the lock/unlock request inside the same operation, and every other ShimAgent operation; roots = both upstream modes x 4 initial contents; reference lock automaton + differential twin that skips lock episodes. non-trivial = operation executed on a locked shim or a successful lock; distinct by (operation, memory table, underlying identities)")
 	c.Assume("the reflection walk finds the shim's in-memory table without naming it", "ground truth of the underlying agent is the harness-owned keyring")
-	depth, maxStates := 5, 0
+	depth, maxStates := 6, 0
 	if c.Thorough() {
 		depth = 7
 	}
